@@ -183,6 +183,20 @@ reg('C06', True,
     'arithmetic the normal form does not capture; listed).',
     'clang 14 AST of 20 units (all state spaces + wrappers); component spaces are opaque calls under an induction hypothesis',
     'algebraic normal-form rewriting of the typed AST under parameter substitutions (swap, alias, sign flip) + data/control dependence of returns')
-for _p in ['C07', 'C14', 'C15', 'C16',
+reg('C07', True,
+    'Decides, in the algebraic normal form of each interpolate routine, the clauses visible in the code: the compound '
+    'interpolation delegates (from[i], to[i], t, out[i]) to every component with the same t and the wrappers forward '
+    'unchanged; for R^n, SO(2), SO(3), time and discrete the result is the same function of the initial inputs '
+    'whether the output state is separate, aliases from or aliases to (alias safety, all inputs); t := 0 normalises '
+    'to from and t := 1 to to on every path (SO(3): +-to; from where the path condition is equalStates; modulo the '
+    'seam representative +-pi of SO(2)), including the t <= 0 / t >= 1 short-cuts of Dubins, Reeds-Shepp, Owen, Vana '
+    'and Vana-Owen on a first call; the SO(2) long-way blend is re-wrapped on both sides; SO(3) interpolation gives '
+    'the same rotation for to and -to; the cached Dubins / Reeds-Shepp path is assigned on every path that clears '
+    'firstTime. Not decided: d(from, interp(t)) = t*d and re-parameterisation consistency (real arithmetic beyond '
+    'ring normal form), in-bounds-ness of interior interpolants, alias safety of Moebius / Klein / the path '
+    'integrators (listed).',
+    'clang 14 AST/CFG of 20 units (all state spaces); component spaces are opaque effects',
+    'algebraic normal-form rewriting with path enumeration under parameter substitutions (t:=0, t:=1, aliasing, sign flip) + CFG typestate')
+for _p in ['C14', 'C15', 'C16',
            'C20']:
     reg(_p, False, '', '', '', PENDING)
